@@ -541,4 +541,27 @@ def mutants(rng, m0, limit=4):
     add("syntax", "unbalanced brace", lambda m: m.__setitem__("text_mutation", lambda t: t.replace("{", "{ {", 1)))
     add("syntax", "garbage token", lambda m: m.__setitem__("text_mutation", lambda t: t + "\n%%% not sdl\n"))
     add("syntax", "empty field list", lambda m: m.__setitem__("text_mutation", lambda t: t + "\ntype ZZBraces { }\n"))
+    # productions of the type-system grammar that demand at least one element: an extension that adds nothing, empty
+    # value / member / argument / location lists (placed at the end of the document and in front of its first definition)
+    def first_of(m, kind, fallback):
+        names = [t["name"] for t in m["types"] if t["kind"] == kind]
+        return names[0] if names else fallback
+    bare = [("extend type %s", "OBJECT"), ("extend interface %s", "INTERFACE"), ("extend union %s", "UNION"),
+            ("extend enum %s", "ENUM"), ("extend input %s", "INPUT")]
+    for form, kind in bare:
+        for front in (False, True):
+            def mut(m, form=form, kind=kind, front=front):
+                target = first_of(m, kind, None)
+                if target is None:
+                    return False
+                piece = form % target
+                m["text_mutation"] = (lambda t: piece + "\n" + t) if front else (lambda t: t + "\n" + piece + "\n")
+                return True
+            add("syntax", "an extension that adds nothing (%s) %s" % (form % "<existing>", "first" if front else "last"), mut)
+    for what, piece in (("bare `extend schema`", "extend schema"), ("bare `extend scalar`", "extend scalar String"),
+                        ("enum without values", "enum ZZE { }"), ("input without fields", "input ZZI { }"),
+                        ("empty argument list", "type ZZA { f(): Int }"), ("`implements` without a name", "type ZZT implements { f: Int }"),
+                        ("directive without locations", "directive @zzd on"), ("empty schema definition", "extend schema { }"),
+                        ("empty directive argument list", "type ZZD { f: Int @deprecated() }")):
+        add("syntax", what, lambda m, piece=piece: m.__setitem__("text_mutation", lambda t: t + "\n" + piece + "\n"))
     return out
